@@ -347,7 +347,7 @@ fn interval_cell(srv: &Srv, cfg: &SrvCfg, spec: &Value) -> Value {
             } else {
                 // upload: the receiver's wait is bounded by the same interval; after the OACK send nothing and count how long the
                 // worker lives: 6 timeouts of t seconds — too slow to measure routinely; only the OACK echo is checked here
-                cl.to_peer(&rc::error(0, "done"));
+                cl.to_peer_guarded(&rc::error(0, "done"));
             }
         }
         other => viol = Some(format!("timeout={t} was not acknowledged with an OACK: {:?}", other.map(|r| r.map(|_| "other packet")))),
